@@ -210,6 +210,9 @@ def check(run, views, tier):
             check_util_target(run, crates["ipputil"])
         from .c12 import check_statics
         check_statics(run, F)
+        from ..engine import include as _include
+        from . import c11 as _c11
+        _include(run, _c11, {cfg: {"ipp": F}}, tier, "::send|uri")
         # the URL is computed from the target the caller configured: nobody rewrites the stored uri
         from .c11 import check_config_writers
         check_config_writers(run, F)
